@@ -1,7 +1,8 @@
 (* C14 — by default a trailing slash on the request path changes nothing. *)
 From Model Require Import Str Sexp Http Template Table Curly DetectRoute Jsr311 Router Registry.
 From Spec Require Import RouteSpec.
-From Proofs Require Import TemplateFacts RouterProofs JsrProofs SlashJsrProofs SlashServeProofs.
+From Proofs Require Import TemplateFacts RouterProofs JsrProofs SlashJsrProofs SlashServeProofs SlashOptionsProofs.
+From Model Require Import Options.
 
 (* CurlyRouter, all templates (well-formed or not), every table and request:
    for a path p with at least one non-slash byte, p and p ++ "/" have the same
@@ -66,3 +67,32 @@ Definition C14_servehttp_jsr_statement : Prop :=
 Theorem C14_servehttp_jsr : C14_servehttp_jsr_statement.
 Proof. exact jsr_slash_servehttp. Qed.
 Print Assumptions C14_servehttp_jsr.
+
+(* "the same Allow header", for the list the OPTIONS filter (and a CORS preflight without configured methods) computes:
+   on tables in which no token may match the empty string — no tail wildcard, no regular expression admitting ""
+   ([table_plain], evaluated on every generated case) — computeAllowedMethods gives the same list for p and p + "/". *)
+Definition C14_options_list_statement : Prop :=
+  forall (O : oracles) (t : table) (p : str),
+    table_plain O t = true -> ends_slash p = false -> p <> [] ->
+    compute_allowed_methods O t (p ++ [slash]) = compute_allowed_methods O t p.
+Theorem C14_options_list : C14_options_list_statement.
+Proof. exact allowed_methods_trailing_slash. Qed.
+Print Assumptions C14_options_list.
+
+(* without that premise it is FALSE of the faithful model and of the code (known finding K-C14-1): the compiled
+   expression of /users/{w:*} accepts "/users/" with an empty tail and not "/users", while CurlyRouter answers both 404 *)
+Definition C14_options_list_all_tables_statement : Prop :=
+  forall (O : oracles) (t : table) (p : str),
+    ends_slash p = false -> p <> [] ->
+    compute_allowed_methods O t (p ++ [slash]) = compute_allowed_methods O t p.
+Theorem C14_refuted_options_list_tail : ~ C14_options_list_all_tables_statement.
+Proof.
+  intros H.
+  specialize (H {| o_lower := lower_ascii; o_rx := fun _ _ => false; o_rxfull := fun _ _ => false |}
+                {| t_router := Curly; t_services := [ {| s_root := L "/"; s_routes :=
+                     [ {| r_id := 1; r_method := L "GET"; r_rel := L "/users/{w:*}"; r_consumes := []; r_produces := [];
+                          r_conds := []; r_noct := []; r_enc := None |} ] |} ] |}
+                (L "/users") eq_refl).
+  assert (Hne : L "/users" <> []) by discriminate. specialize (H Hne). vm_compute in H. discriminate H.
+Qed.
+Print Assumptions C14_refuted_options_list_tail.
